@@ -180,6 +180,7 @@ impl Index {
                     Item::Const(c) => Some(format!("const:{}", c.ident)),
                     Item::Struct(s) => Some(format!("type:{}", s.ident)),
                     Item::Enum(e) => Some(format!("type:{}", e.ident)),
+                    Item::Mod(m) if m.content.is_some() => Some(format!("mod:{}", m.ident)),
                     _ => None,
                 };
                 if let Some(sel) = sel {
